@@ -327,13 +327,34 @@ def narrowing_casts(prog):
     return out
 
 
+# which source files carry integers a property's clauses reason about (a new narrowing cast elsewhere is none of its business)
+S_ = "nexosim/src/"
+NARROWING_SCOPE = {
+    "C01": ["simulation.rs", "simulation/", "model/context.rs", "util/priority_queue.rs", "util/indexed_priority_queue.rs", "util/seq_futures.rs", "time/", "util/sync_cell.rs", "ports/source"],
+    "C05": ["executor", "channel"],
+    "C07": ["simulation.rs", "simulation/", "model/context.rs", "util/priority_queue.rs", "util/seq_futures.rs", "ports/source"],
+    "C08": ["simulation.rs", "simulation/", "model/context.rs", "time/", "util/sync_cell.rs", "util/priority_queue.rs", "ports/source"],
+    "C10": ["simulation.rs", "simulation/", "model/context.rs", "util/seq_futures.rs", "util/priority_queue.rs", "ports/source"],
+    "C12": ["channel"],
+    "C13": ["executor"],
+    "C14": ["ports/", "util/task_set.rs", "util/cached_rw_lock.rs", "util/slot.rs"],
+    "C15": ["time/", "util/sync_cell.rs", "simulation.rs", "simulation/", "model/context.rs"],
+    "C17": ["ports/", "util/cached_rw_lock.rs", "util/task_set.rs"],
+    "C18": ["simulation.rs", "simulation/", "time/", "util/sync_cell.rs"],
+    "C20": ["util/priority_queue.rs", "util/indexed_priority_queue.rs"],
+}
+
+
 def check_narrowing(ctx):
     sites = narrowing_casts(ctx.prog)
     cen = collections.Counter(s.body.file for s in sites)
-    over = [f for f, n in cen.items() if n > NARROWING_ALLOWED.get(f, 0)]
+    pid = (ctx.rule or "")[:3]
+    scope = NARROWING_SCOPE.get(pid)
+    in_scope = (lambda f: True) if scope is None else (lambda f: any(f.startswith(S_ + x) for x in scope))
+    over = [f for f, n in cen.items() if n > NARROWING_ALLOWED.get(f, 0) and in_scope(f)]
     bad = [s for s in sites if s.body.file in over]
     ctx.ob("inventory|narrowing-casts", not over,
-           "no integer is narrowed with `as` outside the %d reviewed sites (a narrowed counter / epoch / index keeps its origin for every flow rule "
-           "but wraps at run time)%s" % (sum(NARROWING_ALLOWED.values()), "; new: " + ", ".join(sorted(over)) if over else ""), bad or sites)
+           "no integer is narrowed with `as` outside the %d reviewed sites in the modules this property reasons about (a narrowed counter / epoch / "
+           "index keeps its origin for every flow rule but wraps at run time)%s" % (sum(NARROWING_ALLOWED.values()), "; new: " + ", ".join(sorted(over)) if over else ""), bad or sites)
     if not sites:
         ctx.missing("narrowing-cast inventory: no cast site found (the extractor no longer reports casts?)")
